@@ -67,7 +67,11 @@ def obligations(ctx, tier):
                                  expect(("ret_call", "from_buf_radix_internal::<N, false, %s>" % be,
                                          "from_buf_radix_internal::<N, false, %s>" % ("false" if be == "true" else "true")))))
                 other = "from_le_slice" if sl == "from_be_slice" else "from_be_slice"
-                reps.append(("r256_bytes", lambda W: {0: B_([1, 2, 3]), 1: PI("u32", 256)}, expect(("ret_call", sl, other))))
+                # radix 256: the digits are the bytes of the magnitude / bit pattern - the unsigned byte decoder of the same
+                # endianness.  Explicitly wrong: the other endianness, and (signed types) the two's-complement slice decoder,
+                # which sign-extends short inputs and accepts 0xFF padding
+                wrong = [other] + (["%s<N>::%s" % (A, sl), "%s<N>::%s" % (A, other)] if sg else [])
+                reps.append(("r256_bytes", lambda W: {0: B_([1, 2, 3]), 1: PI("u32", 256)}, expect(("ret_call", (U + "<N>::" + sl) if sg else sl) + tuple(wrong))))
                 out += core.g_row(K, PROP, inh(A, m), reps)
             # ---- sign handling / error-kind mapping of the string parsers around the parser core
             out += sign_rows(K, A)
@@ -148,6 +152,8 @@ def sign_rows(K, A):
              "-", "+", "1x", "-x", "x1", "1 ", " 1", "1-", "--1", "+-1", "1_0", "\x121"]
         if sg:
             t += [num(lo), num(lo - 1), "-000" + num(-lo), num(lo + 1)]
+            # magnitudes with more digits than the type holds: the overflow kind follows the sign
+            t += ["-" + num(1 << W.bits(A)), num(1 << W.bits(A)), "-" + num((1 << W.bits(A)) * radix + 3)]
         else:
             t += ["-1", "-" + num(hi)]
         if radix == 36:
@@ -195,7 +201,7 @@ def sign_rows(K, A):
 
     for radix in (10, 16, 2, 36, 8):
         reps_s, reps_b, reps_p = [], [], []
-        for j in range(41):
+        for j in range(44):
             def env_s(W, j=j, radix=radix):
                 tx = texts(W, radix)
                 return {0: S_(tx[j % len(tx)]), 1: PI("u32", radix)}
@@ -228,7 +234,7 @@ def sign_rows(K, A):
             out += core.g_row(K, PROP, ntf, reps_s, tag="sign")      # the num-traits entry point accepts the same language
         out += core.g_row(K, PROP, inh(A, "parse_bytes"), reps_b, tag="sign")
     reps_f = []
-    for j in range(41):
+    for j in range(44):
         def env_f(W, j=j):
             tx = texts(W, 10)
             return {0: S_(tx[j % len(tx)])}
